@@ -154,6 +154,7 @@ func addGlobals(r *rand.Rand, p *wPolicy) {
 // mutatePolicy returns a successor state: valid evolution or one of the forbidden ones.
 func mutatePolicy(r *rand.Rand, cur *wPolicy, allowBad bool) (*wPolicy, string) {
 	p := clonePolicy(cur)
+	p.RootSigsLiftedFrom = nil
 	if len(p.Files) == 0 {
 		return p, "noop"
 	}
@@ -161,7 +162,7 @@ func mutatePolicy(r *rand.Rand, cur *wPolicy, allowBad bool) (*wPolicy, string) 
 	kinds := []string{"bump-rule", "rotate-root", "raise-thr", "add-global", "drop-global", "noop"}
 	if allowBad {
 		kinds = append(kinds, "BAD-root-unsigned", "BAD-root-wrong-key", "BAD-targets-wrong-key", "BAD-root-rollback", "BAD-targets-rollback",
-			"BAD-drop-delegated", "BAD-dangling", "BAD-delegated-wrong-key", "BAD-newroot-selfsigned")
+			"BAD-drop-delegated", "BAD-dangling", "BAD-delegated-wrong-key", "BAD-newroot-selfsigned", "BAD-replace-delegated", "BAD-root-lifted-sigs")
 	}
 	k := kinds[r.Intn(len(kinds))]
 	switch k {
@@ -235,6 +236,28 @@ func mutatePolicy(r *rand.Rand, cur *wPolicy, allowBad bool) (*wPolicy, string) 
 		} else {
 			p.Files = nil // drop the primary rule file
 		}
+	case "BAD-replace-delegated": // a delegated rule file disappears while another one appears
+		if len(p.Files) > 1 {
+			old := p.Files[1]
+			t.Version++
+			nm := "moved-" + old.Name
+			rl := t.Rules[0]
+			t.Rules = append(t.Rules, hRule{Name: nm, Patterns: []string{"git:refs/heads/moved"}, Pids: rl.Pids, Thr: rl.Thr})
+			d := &wFile{Version: 1}
+			d.Name = nm
+			d.Defs = map[int][]int{121: {8}}
+			d.Rules = []hRule{{Name: "sub-" + nm, Patterns: []string{"git:refs/heads/moved"}, Pids: []int{121}, Thr: 1}}
+			for _, pid := range rl.Pids[:rl.Thr] {
+				d.Signers = append(d.Signers, devKey(pid))
+			}
+			p.Files = []*wFile{t, d}
+		} else {
+			t.Version++
+		}
+	case "BAD-root-lifted-sigs": // a root naming an intruder's key, carrying the previous root's signature block
+		p.RootVersion++
+		p.RootKeys, p.RootThr = []int{2}, 1
+		p.RootSigsLiftedFrom = cur
 	case "BAD-dangling":
 		d := &wFile{Version: 1, Signers: []int{devKey(101)}}
 		d.Name = "nobody-delegates-here"
@@ -282,7 +305,119 @@ func (g *genState) push(ref string, commit int, signer int, believedInvalid bool
 	}
 }
 
+// genIncidentWorld builds a history on main out of episodes: good pushes, policy changes that move
+// the authority over main between two principals, and incidents (one or two invalid pushes, notes
+// and skip annotations in either order, possibly a policy or attestation entry inside the window,
+// then a "fix" whose tree is the last good one, an older good one or a new one, itself possibly
+// annotated and revoked afterwards).
+func genIncidentWorld(r *rand.Rand) *wWorld {
+	g := &genState{r: r, w: &wWorld{}, tips: map[string]int{}, refPos: map[string][]int{}}
+	g.newCommit(0, 0)
+	auth := 101
+	mk := func(version int, pid int) *wPolicy {
+		t := &wFile{Version: version, Signers: []int{2}}
+		t.Name = "targets"
+		t.Defs = map[int][]int{101: {4}, 102: {5}, 103: {6}}
+		t.Rules = []hRule{{Name: "protect-main", Patterns: []string{"git:" + refMain}, Pids: []int{pid}, Thr: 1}}
+		return &wPolicy{RootVersion: 1, RootKeys: []int{1}, RootThr: 1, TargetsKeys: []int{2}, TargetsThr: 1, HasTargetsRole: true, RootSigners: []int{1}, Files: []*wFile{t}}
+	}
+	version := 1
+	g.addEvent(wEvent{Kind: "policy", Pol: mk(version, auth), Signer: 1})
+	switchAuth := func() {
+		version++
+		auth = 101 + (auth-100)%2
+		g.addEvent(wEvent{Kind: "policy", Pol: mk(version, auth), Signer: 1})
+	}
+	goodTrees := []int{}
+	good := func(signerPid int) {
+		parent := g.tips[refMain]
+		if parent == 0 {
+			parent = 1
+		}
+		c := g.newCommit(parent, 0)
+		g.push(refMain, c, devKey(signerPid), false)
+		if signerPid == auth {
+			goodTrees = append(goodTrees, g.treeOf(c))
+		}
+	}
+	annotate := func(pos int, both bool, noteFirst bool) {
+		if both && noteFirst {
+			g.addEvent(wEvent{Kind: "ann", Targets: []int{pos}, Skip: false, Signer: 1})
+		}
+		g.addEvent(wEvent{Kind: "ann", Targets: []int{pos}, Skip: true, Signer: 1})
+		if both && !noteFirst {
+			g.addEvent(wEvent{Kind: "ann", Targets: []int{pos}, Skip: false, Signer: 1})
+		}
+	}
+	good(auth)
+	for ep := 0; ep < 1+r.Intn(3); ep++ {
+		switch x := r.Intn(6); {
+		case x == 0:
+			good(auth)
+		case x == 1:
+			old := auth
+			switchAuth()
+			if r.Intn(2) == 0 {
+				good(old) // the de-authorised principal pushes again
+			} else {
+				good(auth)
+			}
+		default: // incident
+			bad := []int{}
+			for k := 0; k < 1+r.Intn(2); k++ {
+				c := g.newCommit(g.tips[refMain], 0)
+				g.push(refMain, c, []int{8, 6, 0}[r.Intn(3)], true)
+				bad = append(bad, len(g.w.Events)-1)
+			}
+			for i, pos := range bad {
+				if i == len(bad)-1 || r.Intn(4) != 0 { // sometimes an invalid entry stays unrevoked
+					annotate(pos, r.Intn(3) == 0, r.Intn(2) == 0)
+				}
+			}
+			preAuth := auth
+			switch r.Intn(5) {
+			case 0:
+				switchAuth()
+			case 1:
+				g.addEvent(wEvent{Kind: "attest", Auths: nil, Signer: 4})
+			}
+			if len(goodTrees) > 0 && r.Intn(8) != 0 {
+				tree := goodTrees[len(goodTrees)-1]
+				switch r.Intn(5) {
+				case 0:
+					tree = goodTrees[r.Intn(len(goodTrees))] // maybe an older good state
+				case 1:
+					tree = 0 // not a fix at all
+				}
+				c := g.newCommit(g.tips[refMain], tree)
+				signer := devKey(auth)
+				if r.Intn(4) == 0 {
+					signer = 8
+				}
+				g.push(refMain, c, signer, false)
+				if r.Intn(5) == 0 { // the fix itself is noted and revoked, then repaired again or not
+					annotate(len(g.w.Events)-1, true, r.Intn(2) == 0)
+					if r.Intn(2) == 0 {
+						c2 := g.newCommit(g.tips[refMain], goodTrees[len(goodTrees)-1])
+						g.push(refMain, c2, devKey(auth), false)
+					}
+				}
+			}
+			if r.Intn(2) == 0 {
+				good([]int{auth, preAuth}[r.Intn(2)])
+			}
+		}
+	}
+	if r.Intn(2) == 0 {
+		good(auth)
+	}
+	return g.w
+}
+
 func genWorld(r *rand.Rand, profile string) *wWorld {
+	if (profile == "C01" || profile == "C07" || profile == "C08" || profile == "C02") && r.Intn(4) == 0 {
+		return genIncidentWorld(r)
+	}
 	g := &genState{r: r, w: &wWorld{}, tips: map[string]int{}, refPos: map[string][]int{}, profile: profile}
 	g.newCommit(0, 0)
 	// sometimes history starts before any policy exists
